@@ -16,28 +16,28 @@ CLAIMS = {
          "ideal cryptography (DESIGN 4.6); one known finding (version bytes not in the transcript) is reported as KNOWN-FINDING, any other divergence is a violation",
          "solver-based symbolic execution with symbolic MITM substitutions"),
  "C05": ("composite symbolic run of the whole stack minus gRPC (real mailbox Server/Client, retry loops, two GBN connections, Noise handshake and record layer with ideal primitives) over an in-memory relay with symbolic stream failures and drops, plus the symbolic-length framing steps; provenance check that no relay message depends on plaintext or the auth payload",
-         "relay = in-memory FIFO mailboxes behind the HashMailClient interface; composite writes are 1..3 bytes, large sizes only through the inductive framing steps (C15) and C14/C19; relay faults<=4; default schedule",
+         "relay = in-memory FIFO mailboxes behind the HashMailClient interface; composite writes are 1..3 bytes, large sizes only through the inductive framing steps (C15) and C14/C19; relay faults<=4; default schedule; a straggling Read/Write of an earlier transport on the shared NoiseGrpcConn after a re-handshake that timed out (no crash, no clear text)",
          "bounded symbolic execution of the composed endpoints (goroutine layer, virtual time, ideal crypto) with symbolic relay fault schedule"),
  "C06": ("bounded whole-endpoint symbolic runs on the virtual clock with a finite symbolic fault prefix, then reliable transport: delivery within the horizon, no closure, no retransmission after full acknowledgement; dedicated tail-loss-under-peer-traffic, acknowledgement-loss and post-resend-synchronisation (slow writes vs. ACK/NACK events at symbolic instants) scenarios",
          "bounds: window<=2, messages<=3, faults<=3 per direction, default schedule (+1 deviation thorough), horizon 600 virtual seconds",
          "bounded symbolic execution of both endpoints with discrete-event virtual time and symbolic fault schedule"),
  "C07": ("every run-time check (index, slice, division, nil, make) of the decoders, the live receive loop, the server handshake, Noise act parsing, record reading and control-message framing is an SMT query over symbolic input bytes; unsat = no panic within the length bounds",
-         "regexp/protojson websocket envelope not encodable (outside the claim); Noise primitives idealised; authenticated length fields of act two are additionally explored as chosen by a key-holding hostile party",
+         "regexp/protojson websocket envelope not encodable (outside the claim); Noise primitives idealised; authenticated length fields of act two are additionally explored as chosen by a key-holding hostile party; a straggling Read/Write on the shared credentials object after a failed re-handshake (nil-cipher dereference, D19)",
          "solver-based bounded symbolic execution of go/ssa (z3)"),
  "C08": ("inductive lock-step step of cipherState (symbolic key/salt/nonce incl. rotation boundary), frame condition between directions, syntactic provenance of wire bytes, concrete 1100-2500 record run across rotations",
-         "ideal AEAD/HKDF; HKDF freshness assumed",
+         "ideal AEAD/HKDF; HKDF freshness assumed; key/nonce pairs across a failed write followed by further writes (every Seal call of the run logged)",
          "solver-based inductive step with ideal primitives + syntactic information-flow check on symbolic terms"),
  "C09": ("inductive window invariant on the real queue code for all window sizes and all 256 ACK/NACK values in single queries; negotiated window from every SYN value",
          "window invariant stated in harness/gbn/c09.go; blocking behaviour: whole-connection runs with withheld answers for n in {1,2,3,20}, keep-alive off and on (default schedule); server window after scripted handshakes incl. restart paths; post-resend wait ends on NACK(top)",
          "solver-based inductive step over symbolic pre-state (z3 bit-vectors)"),
  "C10": ("real client and server constructors run against each other on the virtual clock with symbolic fates for the first handshake packets of each direction, stale packets with symbolic bytes, three start orders and four window sizes, followed by a request/reply exchange: no crash, no silent hang, no foreign window, fault-free attempts succeed",
-         "bounds: faults<=3 per direction, <=2 stale packets of <=3 symbolic bytes, horizon 120 virtual s; a stray duplicate that tears the fresh connection down visibly is accepted (the statement's 'fails with an error' branch)",
+         "bounds: faults<=3 per direction, <=2 stale packets of <=3 symbolic bytes, horizon 120 virtual s; a stray duplicate that tears the fresh connection down visibly is accepted (the statement's 'fails with an error' branch); a 1.5 s in-order delay fate with a foreign-window SYN queued ahead and 12 server messages (parties never both alive with different windows)",
          "bounded symbolic execution of both endpoints (goroutine layer, discrete-event virtual time, symbolic fault schedule)"),
  "C11": ("real Server.Accept/Client.Dial over the in-memory relay: a second Accept/Dial does not return while the first connection is open, returns a fresh working connection after close, both parties move to the same key-derived rendezvous and use the key-based pattern; unpaired client refused",
-         "one reconnect cycle per run, relay faults<=2, default schedule; ideal cryptography; in-memory relay model",
+         "one reconnect cycle per run, relay faults<=2, default schedule; ideal cryptography; in-memory relay model; since round 10: two reconnect cycles, and a truncated frame as the k-th delivery at the new rendezvous or in the refresh cycle (failed Accept/Dial called again)",
          "bounded symbolic execution of the composed endpoints with ideal crypto"),
  "C12": ("Close injected at several instants of virtual time by either/both sides, once or twice, with blocked Send/Recv, healthy or silent transport, keep-alive on/off: bounded return, failing calls, peer notification, and an empty set of goroutines and tickers at quiescence",
-         "bounds: window<=2, 5 close instants, default schedule (+1 deviation and one symbolic packet fate in thorough); Close inside a retransmission with a one-way outage (FIN must still reach the peer, no ticker left running); mailbox connection with stalled relay streams",
+         "bounds: window<=2, 5 close instants, default schedule (+1 deviation and one symbolic packet fate in thorough); Close inside a retransmission with a one-way outage (FIN must still reach the peer, no ticker left running); mailbox connection with stalled relay streams; transport writes that block until their context is cancelled, Close with a retransmission stuck in the write (client or server)",
          "bounded symbolic execution with engine-owned scheduler; leak check on the engine's goroutine/timer tables"),
  "C13": ("keep-alive runs on the virtual clock: transport silenced at symbolic idle offsets with 0..N+1 queued messages must close within ping+pong+slack; a healthy idle pair with latency below the pong timeout survives 10 virtual minutes",
          "four ping/pong settings, window<=3, default schedule; slack 20 s for boosted resend-sync waits; answer latency chosen per keep-alive cycle (2%, 34%, 99.7% of the pong timeout) for the first 3-4 cycles",
